@@ -6,6 +6,7 @@ CONSTANTS
   Lim = 1
   Extra = 1
   MaxBatch = 2
+  SlowThr = 1
 SPECIFICATION Spec
 VIEW View
 INVARIANTS TypeOK NoRequestBelowOldHeader SafeRemoval MarkOnlyStored StartBound OngoingStored BlockstoreNoLeak PrunedEdgesAreOld
